@@ -1371,3 +1371,24 @@ func copyAliases(info *types.Info, body ast.Node) func(a, b types.Object) bool {
 		return a == b || find(a) == find(b)
 	}
 }
+
+// fieldOrAccessor: e selects the field fld, or calls an argument-free method whose whole body is `return x.fld`.
+func fieldOrAccessor(p *eng.Prog, info *types.Info, e ast.Expr, fld *types.Var) bool {
+	if eng.IsField(info, e, fld) {
+		return true
+	}
+	call, ok := ast.Unparen(e).(*ast.CallExpr)
+	if !ok || len(call.Args) != 0 {
+		return false
+	}
+	fn, isF := eng.CalleeOf(info, call).(*types.Func)
+	if !isF {
+		return false
+	}
+	f := p.FuncOf(fn)
+	if f == nil || f.Decl.Body == nil || len(f.Decl.Body.List) != 1 {
+		return false
+	}
+	ret, isR := f.Decl.Body.List[0].(*ast.ReturnStmt)
+	return isR && len(ret.Results) == 1 && eng.IsField(f.Pkg.TypesInfo, ret.Results[0], fld)
+}
